@@ -164,19 +164,34 @@ package cache
 //@ func cache.newCache
 //@   property C08
 //@   ensures result != nil && fresh(result) && result.items == item && result.expTime == expTime && result.cleanupInt == cleanupInt
+//@   ensures result.done != nil && fresh(result.done) && allocated(result.done) && !closed(result.done) && recvn(result.done) == 0
 
 //@ func cache.New
 //@   property C08 C01
 //@   ensures result != nil && fresh(result) && cacheInv(result) && fresh(result.cache) && len(result.items) == 0 && result.expTime == expTime && result.cleanupInt == cleanupTime
 //@   ensures gocount == old(gocount) + (cleanupTime > 0 ? 1 : 0)
 
+// cleanup is the background goroutine: it sweeps (DeleteExpired) once for every tick it receives and ends only when it
+// has received the stop message on c.done - never on its own (recvn counts the values received from a channel).
+// That a tick arrives about every cleanupInt is the runtime's ticker and is not decided here.
 //@ func (*cache.cache).cleanup
 //@   property C08 C01
 //@   lock c.mu : none
+//@   ghost sweeps int = 0
+//@   ghost r0 int = recvn(c.done)
+//@   ghost d0 ref = c.done
 //@   requires icacheInv(c)
-//@   modifies map(c.items)
+//@   requires c.done != nil
+//@   requires allocated(c.done)
+//@   requires !closed(c.done)
+//@   modifies map(c.items), recvn(c.done)
+//@   ghost-at DeleteExpired#1: sweeps = sweeps + 1
+//@   ensures recvn(c.done) == r0 + 1
+//@   ensures[seq] sweeps == recvn(tick.C)
 //@ loop 1
-//@   invariant icacheInv(c) && c.items == old(c.items)
+//@   invariant icacheInv(c) && c.items == old(c.items) && c.done == d0 && tick != nil && tick.C != c.done && !closed(tick.C)
+//@   invariant recvn(c.done) == r0
+//@   invariant[seq] sweeps == recvn(tick.C)
 //@   invariant forall k K :: { c.items[k] } old(k in c.items) && (old(c.items[k].expiration) <= 0 || now <= old(c.items[k].expiration)) ==> k in c.items && c.items[k] == old(c.items[k])
 //@   invariant forall k K :: { c.items[k] } k in c.items ==> old(k in c.items) && c.items[k] == old(c.items[k])
 
